@@ -431,4 +431,13 @@ theorem written_from_own_event (s : State) (hr : Reachable s) (c : Nat) (l : Lin
   obtain ⟨e, he, hbe⟩ := hsub
   exact ⟨e, he, routed_to_own_peer s hr c l hl e (Or.inr he), hbe⟩
 
+/-- A further connection of a peer the server already knows changes nothing in the server behaviour:
+no want is forgotten, no waiter entry touched (C15, server side, inside the composition). -/
+theorem extra_connection_keeps_server_state (s : State) (p c : Nat) (hp : p ∈ s.sv.wl) :
+    (ServerLink.step s (.connect p c)).sv = s.sv := by
+  simp only [ServerLink.step]
+  split
+  · rfl
+  · exact Proofs.Server.connect_of_mem s.sv p hp
+
 end Beetswap.Proofs.ServerLink
